@@ -238,7 +238,7 @@ def descHandle (specs : List FSpec) (tagName : String) (args : List String) (imp
       | some fs => let f := showInts fs; s!"ok:{f}|{showInts (describe fs)}|{showInts (describe (describe fs))}|{showInts (describe fs)}|t"
       | none => "err"
     -- predicate on the implementation's observations: every snapshot is the written values, the two descriptions agree
-    let ok := if impl == "err" then true else
+    let ok := if impl == "err" then PDescribe specs ws none else
       match (impl.drop 3).toString.splitOn "|" with
       | [a, b, c, d, same] =>
         (match [a, b, c, d].mapM intList with
@@ -254,6 +254,36 @@ def tbOpt : String → Option (Option Bool)
 def tbShow (b : Bool) : String := if b then "t" else "b"
 
 def lvldb : Bytes := "./lvldbdata".toUTF8.toList
+
+
+/-! numbers written as JSON numbers -/
+
+def nfieldOf (kind field : String) : Option NField :=
+  let has (l : List String) := l.contains field
+  let known := match kind with
+    | "evm" => has ["id", "maxGasPrice", "gasMultiplier", "gasIncreasePercentage", "gasLimit", "transferGas", "startBlock", "blockConfirmations", "blockInterval", "blockRetryInterval"]
+    | "sub" => has ["id", "chainID", "startBlock", "blockInterval", "blockRetryInterval", "tip"]
+    | "btc" => has ["id", "startBlock", "blockInterval", "blockRetryInterval", "blockConfirmations"]
+    | _ => false
+  if !known then none else
+  match field with
+  | "id" => some ⟨.u8, none, 1⟩
+  | "gasMultiplier" => some ⟨.f64, none, 1⟩
+  | "transferGas" | "tip" => some ⟨.u64, none, 1⟩
+  | "blockRetryInterval" => some ⟨.u64, none, 1000000000⟩
+  | "blockConfirmations" | "blockInterval" => some ⟨.i64, some 1, 1⟩
+  | _ => some ⟨.i64, none, 1⟩
+
+def showNum (f : NField) : Option Int → String
+  | none => "err"
+  | some v => if f.kind == .f64 then (if v % 1000 == 0 then s!"ok:{v / 1000}" else "ok:" ++ showMilli v) else s!"ok:{v}"
+
+def parseNumOut (f : NField) (s : String) : Option (Option Int) :=
+  if s == "err" then some none
+  else if s.startsWith "ok:" then
+    let t := (s.drop 3).toString
+    if f.kind == .f64 then (parseMilli t).map some else t.toInt?.map some
+  else none
 
 def handle (op : String) (args : List String) (impl : String) : Option Verdict :=
   match op, args with
@@ -374,8 +404,11 @@ def handle (op : String) (args : List String) (impl : String) : Option Verdict :
     if !numFieldKnown kind field then return bad
     let some t := fromHex hex | return bad
     let out := if field == "feeAmount" then loadFee t else loadTypedFromString t
-    let ok := match parseDurOut impl with | some o => PNumStr t o | none => false
-    return ⟨showDur out, ok, s!"numstr:{if field == "feeAmount" then "fee" else "typed"}:{if out.isSome then "ok" else "err"}:decimal={(decimalReading t).isSome}"⟩
+    -- fee amount: the decimal value AND every decimal numeral loads (PFee); typed fields refuse strings (failure allowed)
+    let ok := match parseDurOut impl with
+      | some o => if field == "feeAmount" then PFee t o else PNumStr t o
+      | none => false
+    return ⟨showDur out, ok, s!"numstr:{if field == "feeAmount" then "fee" else "typed"}:{if out.isSome then "ok" else "err"}:decimal={(decimalSpec t).isSome}"⟩
   | pop, [w, loader, hex] =>
     if !(pop == "porttext" || pop == "portbase" || pop == "portbasex") then none else some <| Id.run do
     if !(w == "h" || w == "m") || !(loader == "d" || loader == "f" || loader == "e") then return bad
@@ -391,15 +424,16 @@ def handle (op : String) (args : List String) (impl : String) : Option Verdict :
       | _ => none
     let asIs := portText t
     let conforms := PPortText t asIs
+    let ideal : Option Nat := match decDigits t with | some p => if p ≤ 65535 then some p else none | none => none
     match pop with
     | "porttext" =>
       -- strict: the generator sends only texts whose base-0 reading is their decimal reading (or an error)
       let ok := match implOut with | some o => PPortText t o | none => false
-      return ⟨showP (if conforms then asIs else none), ok, s!"porttext:{loader}:{if asIs.isSome then "ok" else "err"}"⟩
+      return ⟨showP (if conforms then asIs else ideal), ok, s!"porttext:{loader}:{if asIs.isSome then "ok" else "err"}"⟩
     | "portbase" =>
       -- KNOWN FINDING class (base prefixes / leading-zero octal / underscores), strict predicate
       let ok := match implOut with | some o => PPortText t o | none => false
-      return ⟨showP (if conforms then asIs else none), ok, s!"portbase:{if conforms then "conforms" else "reinterpreted"}"⟩
+      return ⟨showP (if conforms then asIs else ideal), ok, s!"portbase:{if conforms then "conforms" else "reinterpreted"}"⟩
     | _ =>
       -- the same texts with exactly the base-0 value excused
       let ok := match implOut with | some o => PPortTextExc t o | none => false
@@ -447,6 +481,24 @@ def handle (op : String) (args : List String) (impl : String) : Option Verdict :
       return ⟨s!"ok:{asIs}", (match implOut with | some o => PSubNet n o || o == some asIs | none => false), "subnetwrapx"⟩
     | _ =>
       return ⟨s!"ok:{asIs}", (match implOut with | some o => PSubNet n o | none => false), "subnet"⟩
+  | vop, [kind, field, repr, text] =>
+    if !(vop == "numval" || vop == "numvalk" || vop == "numvalx") then none else some <| Id.run do
+    let some f := nfieldOf kind field | return bad
+    if !(repr == "i" || repr == "f") then return bad
+    let some milli := parseMilli text | return bad
+    if repr == "i" && milli % 1000 != 0 then return bad
+    let asIs := loadNum f milli
+    let conforms := PNum f milli asIs
+    let ideal : Option Int := if numValid f milli then some (numWanted f milli) else none
+    let implOut := parseNumOut f impl
+    let tag := s!"{vop}:{field}:{if asIs.isSome then "ok" else "err"}:frac={decide (milli % 1000 != 0)}"
+    if vop == "numvalx" then
+      -- the known points excused: the candidate may also be exactly what the decoder yields (truncation / 8-bit wrap)
+      return ⟨showNum f asIs, (match implOut with | some o => PNum f milli o || o == asIs | none => false), tag⟩
+    else
+      -- numval: strict, ordinary; numvalk: strict, KNOWN FINDING classes (fraction into an integer field, domain id > 255)
+      if vop == "numval" && !conforms then return bad
+      return ⟨showNum f (if conforms then asIs else ideal), (match implOut with | some o => PNum f milli o | none => false), tag⟩
   | _, _ => none
 
 end Sygma.Drv.C20
